@@ -208,6 +208,28 @@ Proof.
 Qed.
 Print Assumptions C17_isolation_exec.
 
+(* the same for every history of __anext__ calls (a consumer that stops early
+   or keeps calling after the end): exactly the first j fresh results, exactly
+   min j n source items consumed, the rest of the source untouched *)
+Theorem C17_history_exec :
+  forall sch frags vs coerce_args world tyres cfuel sels_eqb argkey_eqb,
+    (forall a b, sels_eqb a b = true -> a = b) ->
+    (forall a b, argkey_eqb a b = true -> a = b) ->
+    forall fuel root_type sels (j : nat) (s : sub_state cache pv error),
+      cache_inv sch frags vs coerce_args cfuel (es_cache (ss_exec s)) ->
+      let run := run_c sch frags vs coerce_args world tyres cfuel sels_eqb argkey_eqb fuel root_type sels in
+      let fresh := fresh_result sch frags vs coerce_args world tyres cfuel fuel root_type sels in
+      snd (pulls cache pv (outcome pv) error run j s) =
+        map Some (firstn j (map fresh (ss_source s))) ++ repeat None (j - length (ss_source s)) /\
+      ss_source (fst (pulls cache pv (outcome pv) error run j s)) = skipn j (ss_source s) /\
+      ss_consumed (fst (pulls cache pv (outcome pv) error run j s)) =
+        ss_consumed s + Nat.min j (length (ss_source s)).
+Proof.
+  intros sch frags vs coerce_args world tyres cfuel se ae H1 H2 fuel rt sels j s Hinv.
+  exact (history_exec sch frags vs coerce_args world tyres cfuel se ae H1 H2 fuel rt sels j s Hinv).
+Qed.
+Print Assumptions C17_history_exec.
+
 (* the premise is satisfiable at the start (new executor) and is kept by the
    stream, so it also holds for a stream resumed after any number of events *)
 Theorem C17_tables_stay_sound :
